@@ -65,7 +65,12 @@ fn level_args(tag: &str, short_base: u8) -> Vec<ArgSpec> {
         hv.short_aliases.push(upper(short_base + 2));
     }
     hv.value_hint = Some(HINTS[(tag.bytes().map(|b| b as usize).sum::<usize>() + short_base as usize) % HINTS.len()].to_string());
-    vec![f, o, ov, hid, hv]
+    // a `Set` option that takes no value on the line (its value is the default_missing_value)
+    let mut oz = ArgSpec::opt(&format!("oz{}", tag), None, Some(&format!("lzero{}", tag)));
+    oz.num_args = Some((0, Some(0)));
+    oz.default_missing = vec!["dm".into()];
+    oz.visible_aliases.push(format!("lzeroalias{}", tag));
+    vec![f, o, ov, hid, hv, oz]
 }
 
 struct Tree {
